@@ -242,7 +242,7 @@ fn sequences<T: Clone>(alphabet: &[T], max_len: usize) -> Vec<Vec<T>> {
 }
 
 pub fn run(ctx: &Ctx) {
-    ctx.set_rule("SLIT (N = 0..8 exhaustively for short sequences, up to 64 randomly) and HMAT latency/bandwidth structures (shapes up to 6x6 exhaustively for short sequences, 1xn, nx1, non-square, up to 32x32 randomly): every sequence of cell assignments is applied to the real object and to a reference map (SLIT: cell and mirror hold the last value for the unordered pair, 10 if never assigned; SLLBI: row-major cell i*targets+j holds the last value, 0xFFFF if never assigned); the matrix region of the serialised bytes is compared after every assignment, every in-range pair must be accepted, and the table checksum must stay valid. Exhaustive: all sequences of <= 3 assignments over all in-range pairs x 3 values for N <= 3 / shapes with <= 6 cells, <= 2 assignments for N = 4 / shapes with <= 12 cells. Non-trivial = sequence with a repeated cell, a diagonal cell, or a non-square shape; distinct by hash.");
+    ctx.set_rule("SLIT (N = 0..8 exhaustively for short sequences, up to 64 randomly) and HMAT latency/bandwidth structures (shapes up to 6x6 exhaustively for short sequences, 1xn, nx1, non-square, up to 32x32 randomly): every sequence of cell assignments is applied to the real object and to a reference map (SLIT: cell and mirror hold the last value for the unordered pair, 10 if never assigned; SLLBI: row-major cell i*targets+j holds the last value, 0xFFFF if never assigned); the matrix region of the serialised bytes is compared after every assignment, every in-range pair must be accepted, and the table checksum must stay valid. Exhaustive: all sequences of <= 3 assignments over all in-range pairs x 3 values for N <= 3 / shapes with <= 6 cells, <= 2 assignments for N = 4 / shapes with <= 12 cells. Non-trivial = sequence with a repeated cell, a diagonal cell, or a non-square shape; distinct by hash. Assignments with an index outside the matrix are attempted too (exhaustively for N <= 6 and six SLLBI shapes, rarely in random sequences): the contract leaves their outcome open, so a refused one must leave every cell and the checksum as they were, and an accepted one ends the judged part of the sequence.");
     let vals8 = [0u8, 10, 0xff];
     let vals16 = [0u16, 0x1234, 0xffff];
     let mut cases: Vec<Case> = Vec::new();
